@@ -38,6 +38,13 @@ def main():
             if s.count(m["find2"]) != 1:
                 print(f"MUTANT {m['id']}: second anchor found {s.count(m['find2'])} times -> stale mutant"); bad += 1; continue
             s = s.replace(m["find2"], m["replace2"])
+        stale = False
+        for f2, r2 in m.get("also", []):   # further edits in the same file, each anchor exactly once
+            if s.count(f2) != 1:
+                print(f"MUTANT {m['id']}: additional anchor found {s.count(f2)} times -> stale mutant"); stale = True; break
+            s = s.replace(f2, r2)
+        if stale:
+            bad += 1; continue
         open(p, "w").write(s)
         t0 = time.time()
         cmd = [os.path.join(ROOT, "check"), m["property"], "--repo", sc, "--tier", m.get("tier", "quick")]
